@@ -17,6 +17,35 @@ CLAIMS = {
         design_ref='5/C12',
         note='Modelled not verified: the mv_* wrapper functions (allocation of out, broadcasting) are covered by differential tests; '
              'the tracing translator is trusted but its output is compared with the real functions on every operand combination on every run.'),
+    'C01': dict(
+        technique='Coq proofs over regenerated LUT/dispatch tables + hand model of SimOps/LogicSim with correspondence; gate-by-gate oracle',
+        text='Proof (partial). Proved for all inputs: every LUT constant equals its primitive\'s Boolean function (33x16), both 2-valued '
+             'dispatch copies (_prop_cpu and the callback loop, re-traced from the source on every run) compute that function per lane, '
+             'primitive selection by kind prefix/arity, opcode injectivity, lane independence for any batch size (lifting lemma). '
+             'NOT yet one theorem: that SimOps\' op list is a topological evaluation of the netlist and that the memory map preserves '
+             'line-level semantics; those links are modelled (Model/SimOps.v, Model/LogicSimModel.v) and tied by exact correspondence '
+             'on generated circuits (ops, levels, c_locs, c_caps, c_len, s[0], s[1] after k cycles) plus an independent evaluator.',
+        design_ref='5/C01',
+        note='Modelled not verified: SimOps.__init__, LogicSim.s_to_c/c_prop/c_to_s/s_ppo_to_ppi/cycle, Circuit.topological_order. '
+             'Out of domain: state elements without any output connection or without data input (numpy index -1 aliasing).'),
+    'C02': dict(
+        technique='Coq proofs: exhaustive sweeps of the re-traced 4/8-valued dispatch + logical-relations lemma over op lists; correspondence',
+        text='Proof (full at op-list level). The 4- and 8-valued dispatch of c_prop (with and without callback) is re-traced from the '
+             'source and proved equal to the documented operator composition for all 8^4/4^4 operand values of all 33 opcodes; '
+             'X-soundness, init/final projection and Boolean restriction are proved per primitive (exhaustive) and lifted to every op '
+             'list and every stimulus by a logical-relations lemma. Scheduler and memory map are tied by correspondence (as C01).',
+        design_ref='5/C02',
+        note='Modelled not verified: SimOps.__init__, LogicSim.s_to_c/c_to_s. Circuit-level theorems are over line-level op-list '
+             'semantics (Model/OpSem.v).'),
+    'C16': dict(
+        technique='Coq proofs about op-list semantics with callback (any value domain) + re-traced callback dispatch; correspondence; oracle',
+        text='Proof (full at op-list level). For any value domain: the callback is presented exactly the op outputs in op order, an '
+             'identity callback changes nothing, nothing upstream of the first altered signal changes, and overriding one signal equals '
+             'simulating the remaining ops with that signal driven by the overwritten value. The callback copies of the dispatch are '
+             're-traced and proved equal to the plain ones. Call protocol (Line object, writable view, which ops call back) is tied by '
+             'correspondence and an oracle that rebuilds the cut circuit.',
+        design_ref='5/C16',
+        note='Modelled not verified: the callback protocol inside LogicSim.c_prop (Model/LogicSimModel.v prop1_cb).'),
 }
 
 NOT_YET = 'check not built yet in this session (see DESIGN.md section 8 build order); no claim is made'
